@@ -44,7 +44,7 @@ def Grid.pos (g : Grid) (k : PKey) : Nat := g.findIdx (fun p => p.1 == k)
 
 /-- events of ONE partition / local replicator -/
 def laneEvOk : Ev → Bool
-  | .append _ _ | .appendBad | .applyBegin | .applyTake | .applyAcquire | .applyWrite | .applyCommit
+  | .append _ _ | .appendBad | .applyBegin | .applyGetFail | .applyNoRows | .applyTake | .applyAcquire | .applyWrite | .applyCommit
   | .logGC _ | .walExpire => true
   | _ => false
 
